@@ -199,7 +199,14 @@ pub fn run_sb_check(id: &str, tier: &str, seed: u64) -> i32 {
         }
         "C12" => {
             let n = if quick { 500 } else { 10_000 };
-            (report::par_acc(n, |r| sb_checks::run_c12(seed, r)), n)
+            let a = report::par_acc(n, |r| sb_checks::run_c12(seed, r));
+            // coverage guard: the property is only decided where the engine completes the depth
+            let d3 = a.counters.get("c12_depth_3_judged").copied().unwrap_or(0);
+            if d3 * 2 < n {
+                eprintln!("harness error: depth 3 was completed and judged on only {} of {} positions (node cap reached before the iteration finished?) - C12 cannot be decided on this tree", d3, n);
+                std::process::exit(2);
+            }
+            (a, n)
         }
         "C11" => {
             let n = if quick { 40_000 } else { 600_000 };
